@@ -47,6 +47,7 @@ class _RewriteRuleManager:
   def read_rules(self):
     if not exists(self.rules_file):
       self.clear()
+      self.rules_last_read = 0.0
       return
 
     # Only read if the rules file has been modified
